@@ -1,8 +1,10 @@
 use crate::common::Prop;
+pub mod c15;
 pub mod c18;
 
 pub fn lookup(id: &str) -> Option<&'static dyn Prop> {
     match id {
+        "C15" => Some(&c15::C15),
         "C18" => Some(&c18::C18),
         _ => None,
     }
